@@ -575,13 +575,21 @@ class FileCache:
                 Path(filepath).touch()
 
         if cache_misses:
-            was_succesfully_downloaded = _download_from_resources(
-                cache_misses,
-                self.resources,
-                parallel_download=self.config.parallel,
-                disable_progress_bar=self.disable_progress_bar,
-                desc=self.description,
-            )
+            try:
+                was_succesfully_downloaded = _download_from_resources(
+                    cache_misses,
+                    self.resources,
+                    parallel_download=self.config.parallel,
+                    disable_progress_bar=self.disable_progress_bar,
+                    desc=self.description,
+                )
+            except Exception:
+                # One of the downloads failed. Files that did complete are valid cache
+                # files: register them so that the cache stays in sync with the disk.
+                for cache_miss in cache_misses:
+                    if os.path.exists(cache_miss.filepath):
+                        self._add_to_cache(cache_miss.filename, cache_miss.filepath)
+                raise
 
             for cache_miss, success in zip(cache_misses, was_succesfully_downloaded):
                 if success:
